@@ -640,9 +640,109 @@ func c15Helpers(e *Env, sks []*skeleton) {
 	}
 }
 
+// errLostOnFailure: every failure branch `if e != nil { … }` (or the else of `if e == nil`) of an
+// error-typed variable propagates that error: the branch returns an expression that mentions e, or e is
+// the function's named error result itself, or the branch assigns an expression mentioning e to it. A
+// shadowed `x, err := f()` inside a loop whose failure branch only breaks loses the error.
+func errLostOnFailure(info *types.Info, fd *ast.FuncDecl) string {
+	named := map[types.Object]bool{}
+	if fd.Type.Results != nil {
+		for _, f := range fd.Type.Results.List {
+			for _, n := range f.Names {
+				if o := info.Defs[n]; o != nil && isErrorType(o.Type()) {
+					named[o] = true
+				}
+			}
+		}
+	}
+	mentions := func(n ast.Node, obj types.Object) bool {
+		found := false
+		ast.Inspect(n, func(m ast.Node) bool {
+			if id, ok := m.(*ast.Ident); ok && info.ObjectOf(id) == obj {
+				found = true
+			}
+			return true
+		})
+		return found
+	}
+	why := ""
+	var check func(body *ast.BlockStmt, obj types.Object, pos ast.Node)
+	check = func(body *ast.BlockStmt, obj types.Object, pos ast.Node) {
+		if named[obj] {
+			return // the failure is already in the result
+		}
+		ok := false
+		ast.Inspect(body, func(m ast.Node) bool {
+			switch x := m.(type) {
+			case *ast.FuncLit:
+				return false
+			case *ast.ReturnStmt:
+				for _, res := range x.Results {
+					if mentions(res, obj) {
+						ok = true
+					}
+				}
+			case *ast.AssignStmt:
+				for i, l := range x.Lhs {
+					if id, isId := l.(*ast.Ident); isId && named[info.ObjectOf(id)] && i < len(x.Rhs) && mentions(x.Rhs[i], obj) {
+						ok = true
+					}
+				}
+			case *ast.CallExpr:
+				// handed to something (appended to an error list, wrapped, panicked with)
+				for _, a := range x.Args {
+					if mentions(a, obj) {
+						ok = true
+					}
+				}
+			}
+			return true
+		})
+		if !ok {
+			why = "the failure branch of an error test neither returns the error nor hands it on: the error of a failing provider is lost and a partial value is returned as success"
+		}
+	}
+	ast.Inspect(fd.Body, func(n ast.Node) bool {
+		if _, isLit := n.(*ast.FuncLit); isLit {
+			return false
+		}
+		ifs, ok := n.(*ast.IfStmt)
+		if !ok {
+			return true
+		}
+		be, ok := ast.Unparen(ifs.Cond).(*ast.BinaryExpr)
+		if !ok || (be.Op != token.NEQ && be.Op != token.EQL) {
+			return true
+		}
+		var obj types.Object
+		for _, pair := range [][2]ast.Expr{{be.X, be.Y}, {be.Y, be.X}} {
+			if id, isNil := ast.Unparen(pair[1]).(*ast.Ident); isNil && id.Name == "nil" {
+				if v, isId := ast.Unparen(pair[0]).(*ast.Ident); isId {
+					if o := info.ObjectOf(v); o != nil && isErrorType(o.Type()) {
+						obj = o
+					}
+				}
+			}
+		}
+		if obj == nil {
+			return true
+		}
+		if be.Op == token.NEQ {
+			check(ifs.Body, obj, ifs)
+		} else if eb, isBlock := ifs.Else.(*ast.BlockStmt); isBlock {
+			check(eb, obj, ifs)
+		}
+		return true
+	})
+	return why
+}
+
 // errOverwritten: in straight-line statement lists, `…, err :=/= call` followed by another
 // assignment to err (or the end of the list) before err is read.
 func errOverwritten(info *types.Info, fd *ast.FuncDecl) string {
+	if why := errLostOnFailure(info, fd); why != "" {
+		return why
+	}
 	why := ""
 	var lists [][]ast.Stmt
 	ast.Inspect(fd.Body, func(n ast.Node) bool {
